@@ -202,3 +202,17 @@ PROPS["C06"] = dict(
     assumptions=COMMON_ASSUMPTIONS + ["long unstructured byte strings are outside any bounded enumeration: only the token scope, the truncations and single deviations are covered",
                                       "single allocations above 512 MB fail (ASan allocator limit) instead of being served"],
 )
+
+
+PROPS["C11"] = dict(
+    level_text="Exhaustive small scope on the real functions: every object of the fixtures and of generated documents (all 128 OS-device "
+               "type words plus words with unknown bits, both bridge upstream types, cache depths 1..5, group depths) x all 64 flag words x "
+               "every buffer size in exact-size heap buffers under a watchdog; every printed text and every prefix/case variant of every "
+               "type name and every string of <= 4 letters of a 14-letter alphabet through hwloc_type_sscanf; hwloc_compare_types on all 20 x 20 pairs.",
+    technique="bounded-exhaustive enumeration of objects x flag words x buffer sizes and of parser inputs on the real code",
+    design_ref="DESIGN.md 5 (C11)",
+    stages=[simple("types", "c11_types", deadline={"quick": 150, "thorough": 2000})],
+    explanation="Objects come from all fixtures, a generated XML with 134 OS devices, and 4 synthetic topologies; flag words are the 64 subsets of the six snprintf flags.",
+    bounds={"quick": "strings <= 4 letters", "thorough": "strings <= 5 letters"},
+    assumptions=COMMON_ASSUMPTIONS + ["only the known OS-device type bits can be printed: the parse-back comparison masks unknown bits"],
+)
